@@ -43,6 +43,7 @@ struct Cfg {
   std::vector<Client> clients;             // P
   int pathLen = 0;                         // S
   int pb = 2;
+  int eintr = 0;                           // P: up to this many blocking reads of the server are interrupted (EINTR)
 };
 
 struct Event {
@@ -186,6 +187,11 @@ struct C19 : vr::Driver {
         static const char* bn[] = {"", "stalls without sending", "half-closes after sending", "resets the connection after sending", "closes before reading"};
         P(std::string("one client ") + bn[beh] + " '" + (std::string(rq) == "g\n" ? "g\\n" : rq) + "'", {{rq, beh}}, pbP);
       }
+    // a signal interrupts one of the server's blocking reads: the session must still be answered correctly, or dropped - never mis-answered
+    for (const char* rq : {"g\n", "r\n", "0\n"}) {
+      P(std::string("one client sends '") + std::string(rq, 1) + "\\n'; one blocking read of the server returns EINTR", {{rq, 0}}, th ? 1 : 0);
+      cfgs.back().eintr = 1;
+    }
     int pb2 = th ? 1 : 0;  // two concurrent sessions: the free (blocking-point) choices alone already order them in every way
     P("two clients: 'g' and 'r'", {{"g\n", 0}, {"r\n", 0}}, pb2);
     P("two clients: one stalls, one asks 'g'", {{"", 1}, {"g\n", 0}}, pb2);
@@ -283,6 +289,8 @@ struct C19 : vr::Driver {
   vx::Body bodyP(const Cfg& c) {
     return [c](vx::Result& r) {
       std::string path = sockPath();
+      vs::exemptThisThreadFromFaults();
+      vs::setInterruptBudget(c.eintr);
       auto stats = Oomd::Stats::get_for_unittest(path);
       stats->set("k", 4);
       std::vector<std::string> replies(c.clients.size());
@@ -290,6 +298,7 @@ struct C19 : vr::Driver {
       std::vector<std::thread> ts;
       for (size_t i = 0; i < c.clients.size(); i++)
         ts.emplace_back([&, i] {
+          vs::exemptThisThreadFromFaults();
           const Client& cl = c.clients[i];
           int fd = ::socket(AF_UNIX, SOCK_STREAM, 0);
           sockaddr_un a{};
@@ -327,7 +336,8 @@ struct C19 : vr::Driver {
           fds[i] = -1;
         });
       for (auto& t : ts) t.join();
-      // the server must still answer a well-behaved client
+      // the server must still answer a well-behaved client (no injected faults any more)
+      vs::setInterruptBudget(0);
       std::string probe;
       {
         Oomd::StatsClient cl(path);
@@ -354,7 +364,8 @@ struct C19 : vr::Driver {
         if (rep.empty()) {
           // a reply is owed unless the server legitimately timed the read out (request neither terminated nor 32 bytes long, client still open)
           bool terminated = cl.bytes.find('\n') != std::string::npos || cl.bytes.find('\0') != std::string::npos || cl.bytes.size() >= 32 || cl.behaviour == 2;
-          if (terminated) {
+          // (a session whose read was interrupted may be dropped without a reply: "at most one reply")
+          if (terminated && c.eintr == 0) {
             r.rule = "no-reply";
             r.detail = "client " + std::to_string(i) + " sent a complete request but got no reply";
           }
